@@ -31,11 +31,21 @@ func checkSpeculativeMerge(p *Program, r *Report, rule string) {
 		return
 	}
 	var mapFields []string
-	for i := 0; i < st.NumFields(); i++ {
-		if _, ok := st.Field(i).Type().Underlying().(*types.Map); ok {
-			mapFields = append(mapFields, st.Field(i).Name())
+	var collect func(st *types.Struct, depth int)
+	collect = func(st *types.Struct, depth int) {
+		for i := 0; i < st.NumFields(); i++ {
+			switch ft := st.Field(i).Type().Underlying().(type) {
+			case *types.Map:
+				mapFields = append(mapFields, st.Field(i).Name())
+			case *types.Struct:
+				// maps grouped in a struct held by value belong to the escaper all the same
+				if depth < 2 {
+					collect(ft, depth+1)
+				}
+			}
 		}
 	}
+	collect(st, 0)
 	sites := 0
 	for _, f := range p.SrcFuncs() {
 		if f.Pkg != tsp {
@@ -67,10 +77,14 @@ func mapFieldOf(v ssa.Value) (ssa.Value, string, bool) {
 		return nil, "", false
 	}
 	fa, ok := u.X.(*ssa.FieldAddr)
-	if !ok || !isNamed(fa.X.Type(), pkgTemplate, "escaper") {
+	if !ok {
 		return nil, "", false
 	}
-	return fa.X, fieldName(fa.X.Type(), fa.Field), true
+	base, ok := hostedIn(fa, pkgTemplate, "escaper")
+	if !ok {
+		return nil, "", false
+	}
+	return base, fieldName(fa.X.Type(), fa.Field), true
 }
 
 type mergeWrite struct {
@@ -89,6 +103,21 @@ func fieldsWrittenBy(g *ssa.Function, idx int) map[string]bool {
 			if mu, ok := in.(*ssa.MapUpdate); ok {
 				if base, fld, ok := mapFieldOf(mu.Map); ok && base == ssa.Value(g.Params[idx]) {
 					out[fld] = true
+					continue
+				}
+				// the receiver is a part of the escaper (a struct of maps nested in it)
+				if u, ok := mu.Map.(*ssa.UnOp); ok {
+					if fa, ok := u.X.(*ssa.FieldAddr); ok {
+						root := fa.X
+						for i := 0; i < 3; i++ {
+							if inner, ok := root.(*ssa.FieldAddr); ok {
+								root = inner.X
+							}
+						}
+						if root == ssa.Value(g.Params[idx]) {
+							out[fieldName(fa.X.Type(), fa.Field)] = true
+						}
+					}
 				}
 			}
 		}
@@ -126,8 +155,19 @@ func mergesFrom(p *Program, f *ssa.Function, src ssa.Value, seen map[*ssa.Functi
 							continue
 						}
 						recv := w.Common().Args[0]
-						if recv == src || !isNamed(recv.Type(), pkgTemplate, "escaper") {
+						if recv == src {
 							continue
+						}
+						if !isNamed(recv.Type(), pkgTemplate, "escaper") {
+							// a part of another escaper handed to its own method
+							rfa, ok := recv.(*ssa.FieldAddr)
+							if !ok {
+								continue
+							}
+							rb, ok := hostedIn(rfa, pkgTemplate, "escaper")
+							if !ok || rb == src {
+								continue
+							}
 						}
 						uses := false
 						for _, a := range w.Common().Args[1:] {
